@@ -523,6 +523,17 @@ func init() {
 
 // errors.Is with Go's semantics (==, Is method, Unwrap chains); the real function goes
 // through reflectlite.TypeOf, which the executor cannot run.
+// anyMethod returns the method of t named name, or nil.
+func (in *Interp) anyMethod(t types.Type, name string) *ssa.Function {
+	ms := in.prog.MethodSets.MethodSet(t)
+	for i := 0; i < ms.Len(); i++ {
+		if sel := ms.At(i); sel.Obj().Name() == name {
+			return in.prog.MethodValue(sel)
+		}
+	}
+	return nil
+}
+
 func (in *Interp) errorsIs(fr *frame, err, target value, depth int) bool {
 	if depth > 50 {
 		panic(unsupported{"errors.Is: unwrap chain too long"})
@@ -541,12 +552,12 @@ func (in *Interp) errorsIs(fr *frame, err, target value, depth int) bool {
 			return true
 		}
 	}
-	if m := in.prog.LookupMethod(e.t, nil, "Is"); m != nil && m.Signature.Params().Len() == 1 && m.Signature.Results().Len() == 1 {
+	if m := in.anyMethod(e.t, "Is"); m != nil && m.Signature.Params().Len() == 1 && m.Signature.Results().Len() == 1 {
 		if r, ok := in.call(fr, 0, m, []value{e.v, target}).(*Term); ok && in.branch(r) {
 			return true
 		}
 	}
-	if m := in.prog.LookupMethod(e.t, nil, "Unwrap"); m != nil && m.Signature.Params().Len() == 0 && m.Signature.Results().Len() == 1 {
+	if m := in.anyMethod(e.t, "Unwrap"); m != nil && m.Signature.Params().Len() == 0 && m.Signature.Results().Len() == 1 {
 		res := in.call(fr, 0, m, []value{e.v})
 		switch r := res.(type) {
 		case iface:
